@@ -111,6 +111,10 @@ func runC10(t *simrt.Tape, o Opts) Outcome {
 		h.gen = world.GenOpts{AllowTinyLFU: allowTinyLFU, SmallCaps: t.Choose(2, "smallcaps") == 1}
 		h.weights = [opKinds]int{opEncrypt: 8, opDecrypt: 8, opOpen: 2, opCloseSess: 2, opAdvance: 2, opRevoke: 1, opForeignRotate: 1, opRestart: 1, opNewProc: 1}
 		h.payloadClasses = []int{2, 0}
+		if t.Choose(5, "large-payloads") == 1 {
+			// rows beyond the sizes at which implementations switch strategies (64 KiB, 1 MiB)
+			h.payloadClasses = []int{6, 2, 5, 6}
+		}
 		if t.Choose(4, "clock-skew") == 1 {
 			// hosts whose clocks disagree (keys stamped "in the future" or long ago for the reader)
 			w.ClockSkews = []time.Duration{0, 90 * time.Second, -90 * time.Second, 10 * time.Minute, -10 * time.Minute, 2 * time.Hour, -2 * time.Hour}
